@@ -266,15 +266,23 @@ def fixed_body(ctx, case):
     except Exception as e:
         ctx.fail(f"optimize:raised-{type(e).__name__}:{case['kind']}", case, f"{type(e).__name__}: {str(e)[:300]}")
         return
-    if int(case["n_iter"]) > 1:
-        # plain Roothaan iteration amplifies round-off when the converged solution is an unstable fixed point of the map:
-        # estimate the expansion factor with the independent model and require the clause only where 30 iterations stay below 1e-7
+    # how far the certified reference itself is from the exact fixed point of the plain Roothaan map (one step of the independent model),
+    # and how fast that map expands deviations around it: n iterations turn delta0 into at most delta0 * n * max(1, rho)^n
+    n_it = int(case["n_iter"])
+    Pa0, Pb0 = Ca @ Ca.T, Cb @ Cb.T
+    Fa, Fb = fock_build(h1[0], chol, Pa0, Pa0 + Pb0), fock_build(h1[1], chol, Pb0, Pa0 + Pb0)
+    A1, B1 = np.linalg.eigh(Fa)[1][:, : nelec[0]], np.linalg.eigh(Fb)[1][:, : nelec[1]]
+    delta0 = max(float(np.max(np.abs(A1 @ A1.T - Pa0))), float(np.max(np.abs(B1 @ B1.T - Pb0))), 1e-14)
+    drift = delta0
+    if n_it > 1:
         rho = _roothaan_expansion(h1, chol, nelec, Ca, Cb)
         ctx.err("roothaan expansion factor (informational)", rho)
-        if 1e-14 * max(rho, 1.0) ** int(case["n_iter"]) > 1e-8:
+        drift = delta0 * n_it * max(rho, 1.0) ** n_it
+        if drift > 1e-7:
+            # plain Roothaan iteration amplifies the reference's own residual (or round-off) beyond what the comparison could resolve
             ctx.count("skipped:solution-unstable-under-plain-roothaan-iteration")
             return
-    tol = 1e-8 if int(case["n_iter"]) == 1 else 1e-6
+    tol = (1e-8 if n_it == 1 else 1e-6) + 10 * drift
     ctx.check_close(f"fixed-point:occupied-space-moved:{case['kind']}", case, f"occupied projector after optimize - converged projector ({case['kind']}, {case['n_iter']} it)", np.stack([Ca2 @ Ca2.T, Cb2 @ Cb2.T]), np.stack([Ca @ Ca.T, Cb @ Cb.T]), tol, 1.0)
 
 
